@@ -125,15 +125,17 @@ def hill_climb_mesh_extreme(
             if projected_length > PROJECTION_LENGTH_EPSILON:
                 best_idx = connected_idx
 
+    best_projection = search_direction.dot(
+        np.ascontiguousarray(vertices[best_idx]))
     converged = False
     while not converged:
         converged = True
         for connected_idx in connections[best_idx]:
-            vertex_diff = np.ascontiguousarray(
-                vertices[connected_idx] - vertices[best_idx])
-            projected_length = search_direction.dot(vertex_diff)
-            if projected_length > PROJECTION_LENGTH_EPSILON:
+            projection = search_direction.dot(
+                np.ascontiguousarray(vertices[connected_idx]))
+            if projection - best_projection > PROJECTION_LENGTH_EPSILON:
                 best_idx = connected_idx
+                best_projection = projection
                 converged = False
 
     return best_idx
